@@ -41,10 +41,11 @@ package saml
 //@ -- ------------------------------------------------------------------------------------------
 
 //@ contract (*ServiceProvider).validateRequestID
-//@ ensures[C04] match: sp.ValidateRequestID == nil ==>
+//@ -- (C17: this is the check that ties a response to the requests the browser's tracking cookies name)
+//@ ensures[C04,C17] match: sp.ValidateRequestID == nil ==>
 //@    (err == nil) == (sp.AllowIDPInitiated || idMatches(possibleRequestIDs, response.InResponseTo))
 //@ loop 1 vars requestIDvalid bool
-//@ invariant[C04] acc: requestIDvalid == exists(0, iter, func(j int) bool { return possibleRequestIDs[j] == response.InResponseTo })
+//@ invariant[C04,C17] acc: requestIDvalid == exists(0, iter, func(j int) bool { return possibleRequestIDs[j] == response.InResponseTo })
 
 //@ contract (*ServiceProvider).validateAudienceRestriction
 //@ requires a: assertion != nil && assertion.Conditions != nil
@@ -208,6 +209,11 @@ package saml
 //@    DetachedFrom(d, el) && sameCerts(storeRoots(CtxStore(ctx)), certs) && TrustedCerts(sp, el, certs)
 //@    |- CtxTrusted(sp, el, ctx)
 //@ ensures[C01,C18] sigok: err == nil && sp.SignatureVerifier == nil ==> SigOK(sp, el)
+//@ -- with a pluggable verifier configured, success is that verifier's acceptance of this element in the context built from
+//@ -- the configured roots - its verdict is returned, not lost on the way
+//@ ghost func VerifierAccepted(v SignatureVerifier, ctx *dsig.ValidationContext, el *etree.Element) bool
+//@ assert@return[C01,C18] #each (rerr error) uses ctx=validationContext? *dsig.ValidationContext, d=el? *etree.Element the_verifiers_verdict:
+//@    sp.SignatureVerifier != nil && rerr == nil ==> VerifierAccepted(sp.SignatureVerifier, ctx, d) && DetachedFrom(d, el)
 //@ -- the "no Signature element" sentinel (on which parseResponse bases "the Response is unsigned, so Destination may be
 //@ -- absent") is returned only when the lookup of the Signature child came back empty (or itself failed with that
 //@ -- very error): every other failure is a different error. Stated as a postcondition, checked at every return site,
@@ -308,6 +314,8 @@ package saml
 //@ ensures[C02,C03,C04] valid: result != nil ==> assertionValid(sp, result, possibleRequestIDs, now)
 //@ ensures[C03] audience: result != nil && sp.ValidateAudienceRestriction == nil ==> audienceOK(sp, result)
 //@ ensures[C01] covered: result != nil && sp.SignatureVerifier == nil ==> Covered(sp, *result)
+//@ ghost func CheckedAgainstResolve(id string, a *Assertion) bool
+//@ records went_through: CheckedAgainstResolve(artifactRequestID, result)
 //@ -- the ArtifactResponse answers exactly the given ArtifactResolve ID, is fresh, from the IdP and successful
 //@ assert@call[C02,C03,C04] validateSignature #each uses artifactResponse ArtifactResponse artifact_checked:
 //@    artifactOK(sp, artifactResponse, artifactRequestID, now)
@@ -339,6 +347,9 @@ package saml
 //@ ensures[C02,C03,C04] valid: result != nil ==> assertionValid(sp, result, possibleRequestIDs, TimeNow())
 //@ ensures[C03] audience: result != nil && sp.ValidateAudienceRestriction == nil ==> audienceOK(sp, result)
 //@ ensures[C01] covered: result != nil && sp.SignatureVerifier == nil ==> Covered(sp, *result)
+//@ -- whatever is returned from a SOAP reply went through the check that binds the reply to the ArtifactResolve just issued:
+//@ -- there is no second way out of this function with an assertion
+//@ ensures[C04] only_through_the_artifact_check: result != nil ==> CheckedAgainstResolve(artifactRequestID, result)
 //@ assert@call[C01] ReadFromBytes #each (doc *etree.Document, b []byte) validated_bytes_parsed: RoundTripSafe(b) && sameBytes(b, soapResponseXML)
 //@ assert@call[C01,C04] parseArtifactResponse #each (spa *ServiceProvider, el *etree.Element, ids []string, id string, nowArg time.Time, cur url.URL) entry_arguments:
 //@    el != nil && id == artifactRequestID && nowArg == TimeNow() && sameStrings(ids, possibleRequestIDs) && cur == currentURL
